@@ -212,7 +212,9 @@ class Prop:
 
 
 def check(tier, seed):
-    return vlib.engine(Prop(), tier, seed)
+    # two simultaneous runs of this check would overwrite each other's case files in out/C04: serialise them
+    with vlib.Lock("C04-run"):
+        return vlib.engine(Prop(), tier, seed)
 
 
 def replay(path):
